@@ -39,3 +39,9 @@ claim("C14", "other",
       "Structural clauses of the progress reports: the depth limit only bounds the iteration range and is never compared with the ply counter; one info line per iteration with the loop variable, guarded by both abort tests, after that iteration's search; PV moves pass is_legal_move on the position they are played in and the scratch board is restored; score and move are written together.",
       "textual UCI syntax and mate-distance arithmetic are not decided.",
       "static analysis: dataflow of the depth limit + dominance / must-pass-through over rustc MIR", "DESIGN.md section 3 C14")
+
+
+claim("C02", "other",
+      "Field-by-field inverse argument over the MIR of make_move / unmake_move and their callees: equal write sets, history as a strict stack, multiplicity-faithful containers, counter and en-passant file restored under matching predicates from the matching record, undo_move_piece the case-by-case reverse of move_piece with identical arguments, a make-then-unmake legality probe on every path, and no interior mutability in Board. Holds for all positions, moves and nesting depths because it is an argument about the code, not about sampled states.",
+      "assumes generated moves (captured piece matches the board); bitboard |= / &= !mask inverse-ness for ill-formed moves is value-level and not decided.",
+      "static analysis: who-may-write summaries + path enumeration + symbolic slices over rustc MIR", "DESIGN.md section 3 C02")
